@@ -257,7 +257,7 @@ macro_rules! acc_type {
             }
 
             /// every read path against the model: bit-for-bit, text paths parsed back and compared as values
-            fn check_reads(v: &V, model: &[u64; N]) -> Result<(), (&'static str, String)> {
+            fn check_reads(v: &V, model: &[u64; N], with_precision: bool) -> Result<(), (&'static str, String)> {
                 for &p in read_paths() {
                     match read(p, v) {
                         Err(e) => return Err((p, e)),
@@ -282,7 +282,7 @@ macro_rules! acc_type {
                         _ => return Err((p, format!("{p} text {s:?} does not contain {N} parsable numbers; model = {}", show(model)))),
                     }
                 }
-                {
+                if with_precision {
                     let s = format!("{:.2}", v);
                     let toks = text_tokens(&s);
                     let ok = match &toks {
@@ -369,7 +369,7 @@ macro_rules! acc_type {
                     let last = hist.last().unwrap().clone();
                     Fail::new(format!("C17/{}/{}/{}", VARIANT, TY, p), last, format!("after step {step} of {nops}: {msg}; history: {}", hist.join(" | ")))
                 };
-                if let Err((p, msg)) = check_reads(&v, &model) {
+                if let Err((p, msg)) = check_reads(&v, &model, nops == 0) {
                     return Err(fail_at(0, p, msg));
                 }
                 for j in 0..nops {
@@ -413,7 +413,8 @@ macro_rules! acc_type {
                             v = construct(cname, a4, op.k, v).0;
                         }
                     }
-                    if let Err((p, msg)) = check_reads(&v, &model) {
+                    // Display with a precision (slow for extreme magnitudes) is compared on the final state only
+                    if let Err((p, msg)) = check_reads(&v, &model, j + 1 == nops) {
                         return Err(fail_at(j + 1, p, msg));
                     }
                 }
@@ -436,7 +437,7 @@ macro_rules! acc_type {
                 let c = &tab[(w[0] as usize).min(tab.len() - 1)];
                 t.eval(1);
                 t.class(&format!("const:{}", c.0));
-                if let Err((p, msg)) = check_reads(&c.1, &c.2) {
+                if let Err((p, msg)) = check_reads(&c.1, &c.2, true) {
                     return Err(Fail::new(format!("C17/{}/{}/const-{}", VARIANT, TY, c.0), format!("{}::{} via {}", TY, c.0, p), format!("{}::{}: {msg}", TY, c.0)));
                 }
                 Ok(())
@@ -449,11 +450,17 @@ macro_rules! acc_type {
                 let nw = write_paths().len() as u64;
                 let nr = read_paths().len() as u64;
                 let nk = (consts().len() as u64).max(4);
-                let vals = || proptest::collection::vec(lane_strat(BITS, FLOAT, SIGNED), 4);
+                // only the value words an op uses are generated (the rest are 0): N lanes for a construction, one for a write,
+                // one (the hidden lane of Vec3A::from_vec4) for a rebuild
+                let l = || lane_strat(BITS, FLOAT, SIGNED);
+                let nv = if TY == "Vec3A" { 4 } else { N };
                 let op = prop_oneof![
-                    3 => (0..ncons, 0..nk, vals()).prop_map(|(p, k, v)| vec![0, p, k, v[0], v[1], v[2], v[3]]),
-                    8 => (0..nw, 0..N as u64, vals()).prop_map(|(p, k, v)| vec![1, p, k, v[0], v[1], v[2], v[3]]),
-                    3 => (0..nlp, 0..nr, vals()).prop_map(|(p, k, v)| vec![2, p, k, v[0], v[1], v[2], v[3]]),
+                    3 => (0..ncons, 0..nk, proptest::collection::vec(l(), nv)).prop_map(|(p, k, mut v)| {
+                        v.resize(4, 0);
+                        vec![0, p, k, v[0], v[1], v[2], v[3]]
+                    }),
+                    8 => (0..nw, 0..N as u64, l()).prop_map(|(p, k, v)| vec![1, p, k, v, 0, 0, 0]),
+                    3 => (0..nlp, 0..nr, l()).prop_map(|(p, k, v)| vec![2, p, k, 0, 0, 0, v]),
                 ];
                 proptest::collection::vec(op, 0..=32).prop_map(|ops| ops.concat()).boxed()
             }
